@@ -90,6 +90,17 @@ Step(src, st, U, s) ==
       o  == s.op
   IN
   IF o = "none" THEN [st |-> [st EXCEPT !.ev = TRUE], res |-> "-", miss |-> 0, inc |-> 0]
+  ELSE IF o = "raise" THEN
+     \* the test body raises an exception of its own: no site is touched
+     [st |-> st, res |-> "EX", miss |-> 0, inc |-> 0]
+  ELSE IF o \in {"lebot", "gebot"} THEN
+     \* a bound comparison with a value of an incomparable type: the comparison raises TypeError; the first
+     \* operation still fixes the kind of the site, nothing is recorded (min_max_value.py)
+     LET k == IF o = "lebot" THEN "le" ELSE "ge" IN
+     IF st.kind # "undecided" /\ st.kind # k
+     THEN [st |-> [st EXCEPT !.ev = TRUE], res |-> "TE", miss |-> 0, inc |-> 0]
+     \* (programs use it only on sites that have a value: an empty snapshot accepts a first value of any type)
+     ELSE [st |-> [kind |-> k, new |-> st.new, ev |-> TRUE], res |-> "TE", miss |-> 0, inc |-> 0]
   ELSE IF o = "chg" THEN
      \* the call is evaluated again and its hand-written argument now has another value: a usage error,
      \* nothing is recorded (generic_value.py:_re_eval); on a first evaluation it simply is the value
@@ -138,6 +149,7 @@ Pending(src, st) ==
   ELSE IF st.kind = "undecided" THEN
       \* evaluated, never operated: only the representation can be updated
       IF src.def /\ \E j \in DOMAIN src.e : ~src.e[j].canon THEN {"update"} ELSE {}
+  ELSE IF st.kind \in ScalarOps /\ st.new = <<>> THEN {}      \* every comparison raised: nothing was recorded
   ELSE IF ~src.def THEN {"create"}
   ELSE LET ov == ValsOf(src.e) nv == ValsOf(st.new) IN
   CASE st.kind \in ScalarOps -> ScalarPending(st.kind, src.e[1], nv[1])
@@ -161,6 +173,7 @@ NewSrc(src, st, A) ==
   IF ~st.ev THEN src
   ELSE IF st.kind = "undecided" THEN
       (IF src.def /\ "update" \in A THEN Some(CanonE(src.e)) ELSE src)
+  ELSE IF st.kind \in ScalarOps /\ st.new = <<>> THEN src
   ELSE IF ~src.def THEN (IF "create" \in A THEN Some(CanonE(st.new)) ELSE src)
   ELSE CASE st.kind \in ScalarOps -> IF Pending(src, st) \cap A # {} THEN Some(CanonE(st.new)) ELSE src
     [] st.kind = "in" ->
@@ -199,7 +212,7 @@ RunTest(srcs, U, test, j, tr) ==
        IN RunTest(srcs, U, test, j + 1,
             [sts |-> [tr.sts EXCEPT ![s.site] = q.st],
              miss |-> tr.miss + q.miss, inc |-> tr.inc + q.inc,
-             aborted |-> q.res \in {"TE", "UE"} \/ (s.assert /\ q.res = "F"),
+             aborted |-> q.res \in {"TE", "UE", "EX"} \/ (s.assert /\ q.res = "F"),
              res |-> Append(tr.res, q.res)])
 
 \* run all tests: returns [sts, tests] where tests[t] = [res, miss, inc, aborted, failed]
